@@ -448,13 +448,16 @@ class ThreadPoolServer(Server):
         # serve a maximum of RequestBatchSize requests for this connection
         for _ in range(self.request_batch_size):
             try:
-                if not self.fd_to_conn[fd].poll():  # note that poll serves the request
+                conn = self.fd_to_conn[fd]
+                if not conn.poll():  # note that poll serves the request
                     # we could not find a request, so we put this connection back to the inactive set
                     self._add_inactive_connection(fd)
                     return
             except EOFError:
-                # the connection has been closed by the remote end. Close it on our side and return
-                self._drop_connection(fd)
+                # the connection has been closed by the remote end. Close it on our side and return -- unless the descriptor
+                # number already belongs to a client that connected while this connection's disconnect hook was running
+                if self.fd_to_conn.get(fd) is conn:
+                    self._drop_connection(fd)
                 return
             except Exception:
                 # put back the connection to active queue in doubt and raise the exception to the upper level
